@@ -196,15 +196,16 @@ class Report:
             )
         for ln in lines:
             print(ln)
-        if self.analysis_errors:
-            for e in self.analysis_errors:
-                print(f"ANALYSIS-ERROR property={self.prop} {e}")
-            return 2
+        # a rule that could not model something does not silence the verdict of the rules that could
+        for e in self.analysis_errors:
+            print(f"ANALYSIS-ERROR property={self.prop} {e}")
         if violations:
             for f, p in zip(violations, replay_paths):
                 print(f"  {f.rule} {f.key}: {f.msg}")
                 print(f"VIOLATION property={self.prop} replay={p}")
             return 1
+        if self.analysis_errors:
+            return 2
         print(
             f"OK property={self.prop} tier={self.tier} obligations={obligations} "
             f"discharged={discharged} known_findings={n_known} wall={wall:.2f}s"
